@@ -387,6 +387,14 @@ class C39(core.Check):
                                   ['z', i(32767)]]},
             {'k': 'sess', 'ops': [['r'], ['ra', i(0)], ['z', i(5)], ['r'], ['c', 'RUN'], ['r'],
                                   ['c', 'CLEAR'], ['ra', ['s', [0, 0, 192, 129]]], ['c', 'NEW'], ['r']]},
+            # seed C39f: RND(0), RND(0), RND straight after RANDOMIZE with integer / single / double arguments
+            {'k': 'hist', 'ops': sum([[['z', v], ['ra', i(0)], ['ra', ['s', [0, 0, 0, 0]]], ['r']] for v in
+                                      (i(1), i(10), i(1000), i(32767), i(-1), i(-2), i(-32768),
+                                       ['s', [0, 0x40, 0x1c, 0x90]], ['s', [255, 255, 255, 255]],
+                                       ['d', [0, 0, 0, 0, 0, 0, 0, 0x81]], ['d', [255] * 8])], [])},
+            {'k': 'sess', 'ops': sum([[['z', v], ['ra', i(0)], ['ra', i(0)], ['r']] for v in
+                                      (i(1), i(32767), i(-1), i(-32768), ['s', [0, 0x40, 0x1c, 0x90]],
+                                       ['d', [0xde, 0xad, 0xbe, 0xef, 0xff, 0x80, 0x00, 0x80]])], [])},
             # seed C39e: RND(RND), RND(0*RND), RND(-RND), RND(FNR(2)), two levels; then the sequence goes on
             {'k': 'sess', 'ops': [['r'], ['n', ['A', ['P']]], ['r'], ['n', ['A', ['0', ['P']]]], ['ra', ['i', 0]],
                                   ['n', ['A', ['2', ['P']]]], ['r'], ['n', ['A', ['-', ['P']]]], ['r'],
